@@ -843,6 +843,9 @@ where
         self.topic_alias_send = None;
         self.topic_alias_recv = None;
 
+        // Discard any partially received packet
+        self.packet_builder.reset();
+
         // Release packet IDs for SUBACK
         for packet_id in self.pid_suback.drain() {
             if self.pid_man.is_used_id(packet_id) {
